@@ -166,6 +166,115 @@ def r03h(F):
 	out += P1_who_may_call(F, '03.h', [fn], [FC + 'update_fulfill_htlc', FC + 'update_fail_htlc', FC + 'update_fail_malformed_htlc'], floor=3)
 	return out
 
+def r03i(F):
+	"""a path whose HTLC was handed to the channel (Ok, or Err(MonitorUpdateInProgress): committed but awaiting persistence) stays in flight"""
+	out = []
+	fn = OP + 'handle_pay_route_err'
+	vs = enum_variants(F, 'lightning::util::errors::APIError')
+	if 'MonitorUpdateInProgress' not in vs:
+		return [Result('03.i', False, 'anchor:APIError::MonitorUpdateInProgress', 'anchor missing: APIError::MonitorUpdateInProgress')]
+	mip = vs.index('MonitorUpdateInProgress')
+	# the classifier closure of the PartialFailure arm: returns Some((path, session_priv)) for paths to be forgotten
+	hit = None
+	for n in F.family(fn):
+		if n == F.fn(fn):
+			continue
+		fu = F.func(n)
+		try:
+			rows = path_table(fu)
+		except AnchorMissing:
+			continue
+		rets = {expr_str(r)[:12] for c, r in rows if r is not None}
+		if any(x.startswith('Option::Some') for x in rets) and any(x.startswith('Option::None') for x in rets) and any(any(k.startswith('disc:') for k in c) for c, r in rows):
+			hit = (fu, rows)
+	if hit is None:
+		return [Result('03.i', False, 'anchor:failed-paths-classifier', 'handle_pay_route_err: the closure selecting the failed paths of a partial failure was not found', where=F.where(F.fn(fn)))]
+	fu, rows = hit
+	bad = []
+	n_some = 0
+	for conds, ret in rows:
+		if ret is None or not expr_str(ret).startswith('Option::Some'):
+			continue
+		n_some += 1
+		# a row that forgets the path must require: result is Err (disc 1) and the error is not MonitorUpdateInProgress
+		res_keys = sorted(k for k in conds if k.startswith('disc:'))
+		outer = [k for k in res_keys if not any(k2 != k and k2.startswith(k) for k2 in res_keys)] if False else res_keys
+		k_res = min(res_keys, key=len) if res_keys else None
+		k_err = max(res_keys, key=len) if len(res_keys) > 1 else None
+		def allows(c, v):
+			return (isinstance(c, tuple) and v not in c[1]) or (not isinstance(c, tuple) and c == v)
+		if k_res is None or allows(conds[k_res], 0):
+			bad.append('a successfully sent path (Ok) is forgotten')
+		if k_err is None:
+			if k_res is not None and allows(conds[k_res], 1):
+				bad.append('an Err path is forgotten without looking at the error kind')
+		elif allows(conds[k_err], mip):
+			bad.append('a path that returned Err(MonitorUpdateInProgress) is forgotten although its HTLC is committed')
+	ok = n_some >= 1 and not bad
+	out.append(Result('03.i', ok, ('ok:' if ok else 'inflight:') + 'partial-failure-classifier', 'handle_pay_route_err forgets (removes the session key of) exactly the paths with Err(e), e != MonitorUpdateInProgress (%d forgetting row(s))%s' % (n_some, '' if not bad else ': ' + '; '.join(sorted(set(bad)))), len(rows), where=F.where(fu.name)))
+	# sibling classification: the path-failed events skip MonitorUpdateInProgress as well
+	pf = F.func(OP + 'push_path_failed_evs_and_scids')
+	evs = {b for b, s in sites_construct(pf, 'Event', 'PaymentPathFailed')}
+	sw = [x for x in variant_switch_edges(pf, lambda pl: True, vs) if 'MonitorUpdateInProgress' in x[1]]
+	oks = False
+	for sb, m, other in sw:
+		r = pf.reach([m['MonitorUpdateInProgress']], removed_blocks=loop_heads(pf) | {sb})
+		oks = not (r & evs)
+	out.append(Result('03.i', oks and bool(evs), ('ok:' if oks and evs else 'inflight:') + 'no-path-failed-for-in-progress', 'push_path_failed_evs_and_scids emits no PaymentPathFailed for Err(MonitorUpdateInProgress)', len(sw) + len(evs), where=F.where(pf.name)))
+	# and the sender counts it as sent (PartialFailure, not AllFailedResendSafe)
+	pr = F.func(OP + 'pay_route_internal')
+	sw = [x for x in variant_switch_edges(pr, lambda pl: True, vs) if 'MonitorUpdateInProgress' in x[1]]
+	okp = False
+	for sb, m, other in sw:
+		r = pr.reach([m['MonitorUpdateInProgress']], removed_blocks=loop_heads(pr) | {sb})
+		names = set()
+		for b in r:
+			for st in pr.blocks[b]['s']:
+				if len(st[1]) == 1 and st[2][0] == 'use' and st[2][1][0] == 'k' and st[2][1][1].get('v') == 1:
+					names.add(pr.local_name(st[1][0]))
+		okp = 'has_ok' in names or len(names - {None}) >= 2
+	out.append(Result('03.i', okp, ('ok:' if okp else 'inflight:') + 'in-progress-counts-as-sent', 'pay_route_internal counts Err(MonitorUpdateInProgress) as a sent path (sets the ok and err flags)', len(sw), where=F.where(pr.name)))
+	return out
+
+def r03j(F):
+	"""HTLC failures parked behind a monitor update are handed to the manager when the update completes - connected or not"""
+	out = []
+	fn = FC + 'monitor_updating_restored'
+	fu = F.func(fn)
+	ex = Expr(fu)
+	cons = sites_construct(fu, 'MonitorRestoreUpdates', 'MonitorRestoreUpdates')
+	if len(cons) < 2:
+		return [Result('03.j', False, 'anchor:MonitorRestoreUpdates', 'monitor_updating_restored: expected the connected and the disconnected MonitorRestoreUpdates construction, found %d' % len(cons), len(cons), where=F.where(fn))]
+	# the swap that drains each parked list
+	swaps = {}
+	for b in fu.call_blocks(lambda p: p.endswith('mem::swap') or p.endswith('mem::take') or p.endswith('mem::replace')):
+		fl = set()
+		for a in fu.blocks[b]['t'][2]['args']:
+			fl |= expr_leaves(ex.of_operand(a))['fields']
+		for lst in ('monitor_pending_failures', 'monitor_pending_forwards', 'monitor_pending_finalized_fulfills'):
+			if lst in fl:
+				swaps[lst] = b
+	for lst, fld in (('monitor_pending_failures', 'failed_htlcs'), ('monitor_pending_forwards', 'accepted_htlcs'), ('monitor_pending_finalized_fulfills', 'finalized_claimed_htlcs')):
+		if lst not in swaps:
+			out.append(Result('03.j', False, 'anchor:drain:' + lst, 'monitor_updating_restored no longer drains %s' % lst, where=F.where(fn)))
+			continue
+		sb = swaps[lst]
+		drained = ex.of_operand(fu.blocks[sb]['t'][2]['args'][0])
+		dk = leaf_key(drained)
+		for b, si in cons:
+			agg = ex.of_rvalue(fu.blocks[b]['s'][si][2])
+			names = agg[4] or []
+			if fld not in names:
+				out.append(Result('03.j', False, 'anchor:field:' + fld, 'MonitorRestoreUpdates has no field %s' % fld, where=F.where(fn)))
+				continue
+			v = agg[3][names.index(fld)]
+			vk = leaf_key(v)
+			same = vk == dk
+			p = fu.path([0], [b], removed_blocks={sb})
+			ok = same and p is None
+			out.append(Result('03.j', ok, ('ok:' if ok else 'parked:') + '%s@line-class-%d' % (fld, cons.index((b, si))), 'monitor_updating_restored returns %s = the drained %s at its %s exit%s' % (fld, lst, 'early (peer disconnected)' if cons.index((b, si)) == 0 and len(cons) > 1 else 'normal', '' if ok else (' - it returns `%s` instead' % expr_str(v)[:40] if not same else ' - the drain can be bypassed')), 2, where=F.where(fn, fu.line_of(b))))
+	return out
+
 RULES = [
 	('03.a', 'terminal events are constructed only at the frozen sites; claim/fail are entered only from the manager funnels', r03a),
 	('03.b', 'PaymentSent only when not yet fulfilled, then mark_fulfilled; hash = SHA256(same preimage)', r03b),
@@ -174,4 +283,6 @@ RULES = [
 	('03.f', 'fulfilled entries are forgotten only after the idempotency timeout', r03f),
 	('03.g', 'a failed outbound-route HTLC always reaches OutboundPayments::fail_htlc', r03g),
 	('03.h', 'an outbound HTLC is marked fulfilled only by a preimage that hashes to its payment hash, from Committed', r03h),
+	('03.i', 'paths handed to a channel (Ok / MonitorUpdateInProgress) stay in flight: classifier, path-failed events and sender agree', r03i),
+	('03.j', 'failures / forwards / finalized claims parked behind a monitor update are all returned when it completes, at every exit', r03j),
 ]
